@@ -63,6 +63,27 @@ CHECKS = {
             "functions without callback, nothing for W=0.",
             "Reply bodies are not constrained beyond S9F5's MHEAD; histories are batches of up to 128 messages per fresh handler.",
             "DESIGN.md 3/C08"),
+    "C11": ("model_checking", "vrt+hbfs", "explicit-state history BFS on a real GemEquipmentHandler per configuration",
+            "For each of up to 48 configurations (4 initial control states x LOCAL/REMOTE x host answers the attempt-online probe with "
+            "S1F2 / S1F0 / not at all x control-state events linked+enabled or not) every history of operator switches, S1F15, S1F17, S1F3[1002] "
+            "and probe time-out up to the exhaustive depth, then BFS over canonical states, runs on a fresh real handler in COMMUNICATING; "
+            "state, S1F16/S1F18 acknowledge codes, emitted S6F11 CEIDs and SVID 1002 are compared with the E30 reference table after every event.",
+            "Attempt-online failure may land in HOST or EQUIPMENT OFF-LINE; default schedule; quick tier drops the events-off x non-answering-host configurations.",
+            "DESIGN.md 3/C11"),
+    "C12": ("model_checking", "vrt+hbfs", "explicit-state history BFS with a reference table model and per-state probes",
+            "Every history over the S2F33/S2F35/S2F37 request alphabet (define, delete-one, delete-all, link, unlink, duplicates, unknown ids, "
+            "partially bad requests) and variable updates is run on a fresh real equipment handler; after every step the public tables are "
+            "compared with the reference (refused => unchanged, accepted => exact E5 effect), every link must point to a defined report, and "
+            "S6F15 plus a trigger for every CEID of the domain must yield well-formed S6F16/S6F11 with exactly the linked reports in link "
+            "order and current values (decoded by the reference codec).",
+            "Requests E5 leaves ambiguous are held to the integrity and transactional clauses only; small id domains (2 reports, 3 variables, 3 events).",
+            "DESIGN.md 3/C12"),
+    "C13": ("model_checking", "vrt+hbfs", "explicit-state history BFS with a plain-dict reference model and 49 queries per state",
+            "Every history over S2F15 (in-range, boundary, out-of-range, multi-constant, unknown, repeated), S5F3, set/clear alarm and value "
+            "updates runs on a fresh real equipment handler; after every step S1F3/S1F11/S2F13/S2F29/S5F5/S5F7 with known, unknown, repeated, "
+            "numeric and text id lists are sent and each reply is decoded by the reference codec and compared item by item (order, values, "
+            "empty item for unknown ids, alarm set bit); S2F15 must be all-or-nothing and within limits; S5F1 exactly on changes of enabled alarms.",
+            "Clock and list-valued built-in SVs excluded from value comparison; unknown ALIDs in S5F5 not in the alphabet.", "DESIGN.md 3/C13"),
 }
 
 NOT_YET = "check not built yet in this revision of /verif (see DESIGN.md section 6 build order)"
